@@ -66,6 +66,10 @@ class PEP440Parser:
     @functools.cache
     def parse(cls, value: str, version_class: type[T]) -> T:
         match = cls._regex.search(value) if value else None
+        if match and not match.group(0).strip().lower().isascii():
+            # re.IGNORECASE also matches a few non-ASCII letters (e.g. U+017F for "s")
+            # which PEP 440 does not allow
+            match = None
         if not match:
             raise InvalidVersionError(f"Invalid PEP 440 version: '{value}'")
 
